@@ -51,6 +51,18 @@ def streams_for(prop):
             from fractions import Fraction
             S.append(dict(name="dsm", gen=gen_dsm.gen_dsm, impl=impl_dsm.run, oracle=ref_dsm.CHECKS["C08"],
                           mode="spec", abs_tol=Fraction(1, 10 ** 9)))
+        if prop == "C04":
+            # exporting to / importing from a frame must not depend on the memory layout of the values
+            import gen_table
+            import impl_table
+            import ref_table
+            S.append(dict(name="table", gen=gen_table.gen_table, impl=impl_table.run, mode="spec",
+                          oracle=ref_table.check_C11, always_oracle=True))
+        if prop == "C05":
+            # a refused assignment leaves the target as it was (dims and shape)
+            import gen_history
+            import ref_history
+            S.append(dict(name="history", gen=gen_history.gen_history, impl=ia.run, oracle=ref_history.check_C13))
         if prop == "C06":
             S.append(dict(name="array-ops/stack", gen=ga.gen_stack, impl=ia.run, oracle=ra.check_case))
         S.append(dict(name="index", gen=gen_index.gen_index, impl=ia.run, oracle=ra.check_case))
@@ -65,7 +77,8 @@ def streams_for(prop):
         import gen_system
         import impl_system
         import ref_system
-        S.append(dict(name="system", gen=gen_system.gen_system, impl=impl_system.run, oracle=ref_system.check_case))
+        S.append(dict(name="system", gen=gen_system.gen_system, impl=impl_system.run, oracle=ref_system.check_case,
+                      always_oracle=True))
     elif prop == "C18":
         import gen_build
         import impl_build
@@ -102,6 +115,11 @@ def streams_for(prop):
         if prop == "C15":
             import gen_index
             S.append(dict(name="index", gen=gen_index.gen_index, impl=ia.run, oracle=ra.check_case))
+            import gen_table
+            import impl_table
+            import ref_table
+            S.append(dict(name="table", gen=gen_table.gen_table, impl=impl_table.run, mode="spec",
+                          oracle=ref_table.check_C15, always_oracle=True))
     elif prop == "C17":
         import gen_dsmhist
         import impl_dsmhist
